@@ -247,8 +247,6 @@ theorem formatJSON_valid (f : Fmt) (m : FlowMsg) (hn : namesOK f = true) (hs : s
   rw [object_ok ms (total (ms.map (·.2)) + 1) hk _ (by simp only [List.length_cons, List.length_append]; omega) []]
   rfl
 
-/-! ### the default configuration meets the side conditions for every message -/
-
 /-- does a column hold a list (mirror of the case analysis of `fieldValue`, without the message) -/
 def isListCol (g : String) : Bool :=
   match FlowMsg.kindOf g with
@@ -285,6 +283,159 @@ theorem fieldValue_valid_of_col (m : FlowMsg) (g : String) (h : (FlowMsg.kindOf 
     by_cases h1 : g = "Type" <;> by_cases h2 : g = "LayerStack" <;> by_cases h3 : kind = "u32" <;>
       by_cases h4 : kind = "u64" <;> by_cases h5 : kind = "bytes" <;> by_cases h6 : kind = "listU32" <;>
       simp [h1, h2, h3, h4, h5, h6]
+
+/-! ### whatever a field's value is, its elements are scalars: only "printed as a scalar but carries a list" can go wrong -/
+
+theorem parseUnknown_scalar (fuel : Nat) (b : Bytes) : ∀ x ∈ parseUnknown fuel b, scalar x.2.2 = true := by
+  induction fuel generalizing b with
+  | zero => intro x hx; simp [parseUnknown] at hx
+  | succ n ih =>
+    intro x hx
+    cases b with
+    | nil => simp [parseUnknown] at hx
+    | cons c cs =>
+      simp only [parseUnknown] at hx
+      split at hx
+      · cases hx
+      · split at hx
+        · split at hx
+          · rcases List.mem_cons.mp hx with e | e
+            · subst e; rfl
+            · exact ih _ x e
+          · cases hx
+        · split at hx
+          · split at hx
+            · rcases List.mem_cons.mp hx with e | e
+              · subst e; rfl
+              · exact ih _ x e
+            · cases hx
+          · cases hx
+
+/-- every value of the custom-field map is a scalar or a list of scalars -/
+def unkInv (acc : List (String × FV)) : Prop := ∀ kv ∈ acc, (elemsOf kv.2).all scalar = true
+
+theorem assocSet_inv (acc : List (String × FV)) (k : String) (v : FV) (h : unkInv acc) (hv : (elemsOf v).all scalar = true) :
+    unkInv (assocSet acc k v) := by
+  intro kv hkv
+  simp only [assocSet, List.mem_cons, List.mem_filter] at hkv
+  rcases hkv with e | e
+  · subst e; exact hv
+  · exact h kv e.1
+
+theorem lookup_mem {β} (l : List (String × β)) (k : String) (v : β) (h : l.lookup k = some v) : (k, v) ∈ l := by
+  induction l with
+  | nil => simp at h
+  | cons x xs ih =>
+    obtain ⟨a, b⟩ := x
+    simp only [List.lookup] at h
+    by_cases hk : k == a
+    · simp only [hk] at h
+      have : k = a := by simpa using hk
+      cases h; subst this; simp
+    · simp only [hk] at h
+      exact List.mem_cons_of_mem _ (ih h)
+
+theorem mapUnknown_inv (f : Fmt) (unk : Bytes) : unkInv (mapUnknown f unk) := by
+  unfold mapUnknown
+  have key : ∀ (l : List (Nat × Nat × FV)) (acc : List (String × FV)), (∀ x ∈ l, scalar x.2.2 = true) → unkInv acc →
+      unkInv (l.foldl (fun acc (x : Nat × Nat × FV) =>
+        match f.numToPb.lookup x.1 with
+        | none => acc
+        | some pb =>
+          if pb.array then
+            let cur := match acc.lookup pb.name with | some (.list l) => l | _ => []
+            assocSet acc pb.name (.list (cur ++ [x.2.2]))
+          else assocSet acc pb.name x.2.2) acc) := by
+    intro l
+    induction l with
+    | nil => intro acc _ h; exact h
+    | cons x xs ih =>
+      intro acc hl hacc
+      simp only [List.foldl_cons]
+      apply ih _ (fun y hy => hl y (by simp [hy]))
+      have hx := hl x (by simp)
+      cases hpb : f.numToPb.lookup x.1 with
+      | none => exact hacc
+      | some pb =>
+        simp only
+        by_cases ha : pb.array = true
+        · simp only [ha, if_true]
+          apply assocSet_inv _ _ _ hacc
+          have hcur : ∀ e ∈ (match acc.lookup pb.name with | some (.list l) => l | _ => []), scalar e = true := by
+            intro e he
+            cases hlk : acc.lookup pb.name with
+            | none => simp [hlk] at he
+            | some v =>
+              cases v with
+              | list l =>
+                simp only [hlk] at he
+                have := hacc _ (lookup_mem _ _ _ hlk)
+                exact (List.all_eq_true.mp this) e he
+              | _ => simp [hlk] at he
+          simp only [elemsOf, List.all_append, Bool.and_eq_true, List.all_cons, List.all_nil, Bool.and_true]
+          exact ⟨List.all_eq_true.mpr hcur, hx⟩
+        · simp only [ha, Bool.false_eq_true, if_false]
+          apply assocSet_inv _ _ _ hacc
+          cases hv : x.2.2 <;> simp_all [elemsOf, scalar]
+  exact key _ [] (parseUnknown_scalar _ _) (by intro kv h; cases h)
+
+theorem valueOf_scalars (f : Fmt) (m : FlowMsg) (s : String) (v : FV)
+    (h : valueOf f m (mapUnknown f m.unk) s = some v) : (elemsOf v).all scalar = true := by
+  unfold valueOf at h
+  cases hfv : fieldValue m (fieldNameOf f s) with
+  | invalid =>
+    simp only [hfv] at h
+    cases hlk : (mapUnknown f m.unk).lookup s with
+    | some u =>
+      simp only [hlk, Option.some.injEq] at h
+      subst h
+      exact mapUnknown_inv f m.unk _ (lookup_mem _ _ _ hlk)
+    | none =>
+      simp only [hlk] at h
+      split at h
+      · cases h; rfl
+      · cases h
+  | num n b => simp only [hfv, Option.some.injEq] at h; subst h; rfl
+  | bytes b => simp only [hfv, Option.some.injEq] at h; subst h; rfl
+  | flowType n => simp only [hfv, Option.some.injEq] at h; subst h; rfl
+  | layer n => simp only [hfv, Option.some.injEq] at h; subst h; rfl
+  | list l =>
+    simp only [hfv, Option.some.injEq] at h; subst h
+    have := fieldValue_scalars m (fieldNameOf f s)
+    rwa [hfv] at this
+
+/-- the only shape condition that matters: a field that carries a list is printed as an array -/
+def listsAreSlices (f : Fmt) (m : FlowMsg) : Bool :=
+  f.fields.all fun s =>
+    match valueOf f m (mapUnknown f m.unk) s with
+    | some v => !(isListV v) || isSliceOf f s
+    | none => true
+
+theorem shapeOK_of_listsAreSlices (f : Fmt) (m : FlowMsg) (h : listsAreSlices f m = true) : shapeOK f m = true := by
+  unfold shapeOK
+  unfold listsAreSlices at h
+  rw [List.all_eq_true] at h ⊢
+  intro s hs
+  have hs' := h s hs
+  unfold shapeOKAt
+  cases hv : valueOf f m (mapUnknown f m.unk) s with
+  | none => rfl
+  | some v =>
+    simp only [hv] at hs'
+    simp only
+    by_cases hsl : isSliceOf f s = true
+    · simp only [hsl, if_true]; exact valueOf_scalars f m s v hv
+    · have : isSliceOf f s = false := by simpa using hsl
+      simp only [this, Bool.false_eq_true, if_false]
+      simpa [this] using hs'
+
+/-- C13, JSON validity in its sharpest form: names that need no escaping, and every field that carries a list is
+    declared (or known) as an array -/
+theorem formatJSON_valid' (f : Fmt) (m : FlowMsg) (hn : namesOK f = true) (hl : listsAreSlices f m = true) :
+    valid (formatJSON f m) = true :=
+  formatJSON_valid f m hn (shapeOK_of_listsAreSlices f m hl)
+
+/-! ### the default configuration meets the side conditions for every message -/
 
 def defaultFmt : Fmt := (compileNil initialIsSlice).fmt
 
